@@ -23,6 +23,7 @@ LANES = {
     "C16": [dict(REL)],
     "C06": [dict(REL)],
     "C18": [dict(REL), dict(DBG)],
+    "C17": [{"name": "adaptors-release", "profile": "release", "package": "harness-adapt", "bin": "vh-adapt"}],
     "C07": [dict(REL), dict(DBG)],
     "C13": [dict(REL)],
     "C14": [dict(REL), dict(DBG)],
